@@ -25,13 +25,13 @@ type Config struct {
 	QueryTimeoutMs int
 	// CrossCheckEvery > 0: every n-th assertion query answered unsat is also put to the other z3 build
 	CrossCheckEvery int
-	Deadline       time.Duration
-	Solver         string
-	Trace          bool
-	Seed           int64
-	ModulePrefix   string // functions of packages with this prefix are reported as encoded
-	KeepPaths      int    // number of path summaries kept for evidence / validation
-	Verbose        bool
+	Deadline        time.Duration
+	Solver          string
+	Trace           bool
+	Seed            int64
+	ModulePrefix    string // functions of packages with this prefix are reported as encoded
+	KeepPaths       int    // number of path summaries kept for evidence / validation
+	Verbose         bool
 }
 
 type Engine struct {
@@ -135,6 +135,24 @@ func (e *Engine) newInterpreter(w *Worker) *interpreter {
 		}
 	}
 	return i
+}
+
+// covFor returns the block-coverage slice of fn if fn belongs to the module
+// under test (GOSYM_COVERAGE), nil otherwise.
+func (i *interpreter) covFor(fn *ssa.Function) []bool {
+	if c, ok := i.cov[fn]; ok {
+		return c
+	}
+	var c []bool
+	pkg := fn.Pkg
+	if pkg == nil && fn.Origin() != nil {
+		pkg = fn.Origin().Pkg
+	}
+	if pkg != nil && strings.HasPrefix(pkg.Pkg.Path(), i.w.e.Cfg.ModulePrefix) && !strings.Contains(pkg.Pkg.Path(), "/zzverif") {
+		c = make([]bool, len(fn.Blocks))
+	}
+	i.cov[fn] = c
+	return c
 }
 
 func (i *interpreter) intrinsicFor(fn *ssa.Function) externalFn {
@@ -416,6 +434,7 @@ type PathSummary struct {
 
 type Report struct {
 	Harness         string
+	Blocks          map[string]bool // GOSYM_COVERAGE: blocks of executed module functions -> executed on some path
 	Paths           int
 	Completed       int // paths that ran to the end of the harness (ok)
 	Outcomes        map[string]int
@@ -459,6 +478,7 @@ type exploration struct {
 	stop           bool
 	funcs          map[string]bool
 	intrUsed       map[string]bool
+	cov            map[*ssa.Function][]bool
 	panicSeen      map[string]bool
 	okSeen, okKept int
 	rng            *rand.Rand
@@ -490,7 +510,7 @@ func (w *Worker) budgetCheck(ps *pathState) {
 
 // Explore runs harness function fn on all feasible paths.
 func (e *Engine) Explore(fn *ssa.Function) *Report {
-	x := &exploration{e: e, fn: fn, start: time.Now(), funcs: map[string]bool{}, intrUsed: map[string]bool{},
+	x := &exploration{e: e, fn: fn, start: time.Now(), funcs: map[string]bool{}, intrUsed: map[string]bool{}, cov: map[*ssa.Function][]bool{},
 		rng: rand.New(rand.NewSource(e.Cfg.Seed + 1))}
 	x.cond = sync.NewCond(&x.mu)
 	x.report = &Report{Harness: fn.String(), Outcomes: map[string]int{}, Unsupported: map[string]int{},
@@ -516,6 +536,9 @@ func (e *Engine) Explore(fn *ssa.Function) *Report {
 			w.solver = s
 			defer s.Close()
 			w.i = e.newInterpreter(w)
+			if os.Getenv("GOSYM_COVERAGE") != "" {
+				w.i.cov = map[*ssa.Function][]bool{}
+			}
 			for {
 				x.mu.Lock()
 				for len(x.work) == 0 && x.active > 0 && !x.stop {
@@ -567,6 +590,21 @@ func (e *Engine) Explore(fn *ssa.Function) *Report {
 					}
 				}
 			}
+			for f, c := range w.i.cov {
+				if c == nil {
+					continue
+				}
+				m := x.cov[f]
+				if m == nil {
+					m = make([]bool, len(c))
+					x.cov[f] = m
+				}
+				for k, b := range c {
+					if b {
+						m[k] = true
+					}
+				}
+			}
 			for f, in := range w.i.intr {
 				if in != nil {
 					x.intrUsed[f.String()] = true
@@ -590,6 +628,31 @@ func (e *Engine) Explore(fn *ssa.Function) *Report {
 		r.IntrinsicsUsed = append(r.IntrinsicsUsed, f)
 	}
 	sort.Strings(r.IntrinsicsUsed)
+	// block coverage of the module functions executed (GOSYM_COVERAGE)
+	for f, c := range x.cov {
+		for k, hit := range c {
+			if k >= len(f.Blocks) {
+				continue
+			}
+			b := f.Blocks[k]
+			pos := token.NoPos
+			for _, in := range b.Instrs {
+				if in.Pos() != token.NoPos {
+					pos = in.Pos()
+					break
+				}
+			}
+			if pos == token.NoPos {
+				continue
+			}
+			p := e.Prog.Fset.Position(pos)
+			key := fmt.Sprintf("%s:%d %s b%d %s", p.Filename, p.Line, f.String(), k, b.Comment)
+			if r.Blocks == nil {
+				r.Blocks = map[string]bool{}
+			}
+			r.Blocks[key] = r.Blocks[key] || hit
+		}
+	}
 	r.FeasQueries = r.Solver.Queries - r.AssertQueries
 	r.Wall = time.Since(x.start)
 	if r.Solver.Errors > 0 {
